@@ -89,10 +89,9 @@ Proof.
     unfold rt_bt. apply (good_f2 dx G2 _ _ Hdefx Hdefy).
     apply share_pat_spec. exists q.
     apply in_routes in Hx as (rx & _ & Hx). apply in_routes in Hy as (ry & _ & Hy).
-    rewrite (routes_of_rule _ _ Hx), (routes_of_rule _ _ Hy).
-    unfold routes_of in Hx, Hy. apply in_map_iff in Hx as (ex & Ex & Hex). apply in_map_iff in Hy as (ey & Ey & Hey).
-    apply has_pat_rpat in Hqx, Hqy. subst x y. unfold rpat in *. simpl in *.
-    split; apply in_def_pats; [exists ex | exists ey]; tauto.
+    apply routes_of_in in Hx as [Erx Hex]. apply routes_of_in in Hy as [Ery Hey].
+    apply has_pat_rpat in Hqx, Hqy. unfold rpat in *.
+    split; apply in_def_pats; [exists (rt_path x) | exists (rt_path y)]; rewrite ?Erx, ?Ery in *; tauto.
 Qed.
 
 (** ** the diff of UpdateRuleSet *)
@@ -160,8 +159,8 @@ Proof.
   destruct (has_pat q x) eqn:E; [|reflexivity]. exfalso.
   assert (mem_pat q (def_pats d) = true); [|congruence].
   apply mem_pat_in. apply in_def_pats.
-  unfold routes_of in Hx. simpl in Hx. apply in_map_iff in Hx as (e & Ex & He). subst x.
-  apply has_pat_rpat in E. unfold rpat in E. simpl in E. exists e. tauto.
+  apply routes_of_in in Hx as [_ He]. simpl in He.
+  apply has_pat_rpat in E. unfold rpat in E. exists (rt_path x). tauto.
 Qed.
 
 Lemma flat_map_at_pat s q l : flat_map (rq s q) l = flat_map (rq s q) (at_pat q l).
@@ -180,7 +179,8 @@ Proof.
   intros I N. unfold at_q. apply filter_all_false. intros x Hx.
   destruct (has_pat q x) eqn:E; [|reflexivity]. exfalso. apply N.
   apply (pats_routes s). exists x. split; [|exact E].
-  apply in_routes_stamp in Hx as (d & e & Hd & He & Ex). apply in_routes_stamp. exists d, e. split; [apply I; exact Hd | tauto].
+  apply in_routes in Hx as (r & Hr & Hx). apply in_routes. exists r. split; [|exact Hx].
+  apply in_stamp in Hr as [Es Hd]. apply in_stamp. split; [exact Es | apply I; exact Hd].
 Qed.
 
 Lemma rdef_list_eqb_eq a b : list_eqb rdef_eqb a b = true <-> a = b.
@@ -227,6 +227,7 @@ Qed.
 (** ** UpdateRuleSet against the specification *)
 
 Section Update.
+Variable fx : fixes.
 Variables (st : repo) (S : sets) (s : nat) (ds : list rdef).
 Hypothesis HI : Inv st.
 Hypothesis HR : Rel (known st) S.
@@ -266,9 +267,9 @@ Proof.
   - apply mem_rule_false. intro H. apply filter_In in H. destruct H. congruence.
 Qed.
 
-Lemma upd_del_phase : exists d1, del_rules (index st) (to_be_deleted app rs) = inl d1 /\
+Lemma upd_del_phase : exists d1, del_rules db (m_del1 fx) (index st) (to_be_deleted app rs) = inl d1 /\
                                  ReprV d1 (routes K0) /\ ReprF d1.
-Proof. rewrite upd_tbd. apply (del_rules_spec K P (index st) (i_k _ HI) (i_v _ HI) (i_f _ HI)). Qed.
+Proof. rewrite upd_tbd. apply (del_rules_spec fx K P (index st) (i_k _ HI) (i_v _ HI) (i_f _ HI)). Qed.
 
 Lemma mem_rs r : mem_rule r rs = true <-> r_src r = s /\ In (r_def r) ds.
 Proof. rewrite mem_rule_in. apply in_stamp. Qed.
